@@ -135,12 +135,14 @@ void SimAlloc::reset_run()
 	total_fired = 0;
 	total_reqs = 0;
 	foreign_frees = 0;
+	spare_jansson = false;
 	canary = false;
 	canary_hits = 0;
 	canary_block = canary_off = 0;
 	in_parse = 0;
 	parse_reqs = 0;
 	fired_in_parse = 0;
+	fired_in_dump = 0;
 	last_parse_fault = ParseRecord();
 	in_dump = 0;
 	dump_reqs = 0;
@@ -163,13 +165,17 @@ extern "C" void *sim_malloc(size_t n)
 		g_alloc.parse_reqs++;
 	if (g_alloc.in_dump)
 		g_alloc.dump_reqs++;
-	if (g_alloc.armed) {
+	if (g_alloc.armed && g_alloc.spare_jansson && (g_alloc.in_parse || g_alloc.in_dump)) {
+		// not counted: the window's request indices run over the requests made outside jansson's parser and serializer
+	} else if (g_alloc.armed) {
 		g_alloc.win_reqs++;
 		if (g_alloc.fail_at > 0 &&
 		    ((int64_t)g_alloc.win_reqs == g_alloc.fail_at || (g_alloc.fail_at2 > 0 && (int64_t)g_alloc.win_reqs == g_alloc.fail_at2) ||
 		     (g_alloc.fail_from && (int64_t)g_alloc.win_reqs > g_alloc.fail_at))) {
 			g_alloc.fired++;
 			g_alloc.total_fired++;
+			if (g_alloc.in_dump)
+				g_alloc.fired_in_dump++;
 			if (g_alloc.in_dump && !g_alloc.last_dump_fault.valid && g_alloc.dump_text_valid) {
 				DumpRecord &d = g_alloc.last_dump_fault;
 				d.valid = true;
